@@ -120,3 +120,9 @@ def run(ctx, chk):
     sub = Sub(chk, "C06/parse", lambda r: r in ("C13-a/dispatch", "C13-a/tag-source", "C13-a/arm-tag"))
     rules_c13.run(ctx, sub)
     chk.floor("tagged-field dispatch obligations (shared with C13-a)", sub.count, 30)
+    # "a packet that cannot be decoded" must come out as one error item: a decoder that panics on it unwinds through the
+    # stream poll instead - zero items, the stream never ends (the C02-a/b site discharge over every decoder)
+    import rules_c02
+    sub2 = Sub(chk, "C06/parse", lambda r: r in ("C06p-a/no-panic", "C06p-b/no-wrap", "C06p-b/no-truncation"))
+    rules_c02.run(ctx, sub2, only=lambda b: True, prop="C06p")
+    chk.floor("decoder panic-site obligations (shared with C02-a/b)", sub2.count, 100)
